@@ -11,8 +11,9 @@ P = lambda name, **kw: dict(name=name, **kw)  # noqa: E731
 
 
 def _t(slug, params=(), inputs=(), pulls=(), kind='json', **kw):
-    return dict(slug=slug, params=list(params), inputs=[dict(ref=r, how=h) for r, h in inputs], pulls=list(pulls),
-                run_params=[p['name'] for p in params if not p.get('norun')], kind=kind, **kw)
+    # an input is (ref, how) or (ref, how, extra) - extra e.g. {'default': None} for an optional InputTaskParameter
+    return dict(slug=slug, params=list(params), inputs=[dict(ref=i[0], how=i[1], **(i[2] if len(i) > 2 else {})) for i in inputs],
+                pulls=list(pulls), run_params=[p['name'] for p in params if not p.get('norun')], kind=kind, **kw)
 
 
 FAMILIES = {}
@@ -164,6 +165,26 @@ family(
 )
 
 
+# ---- wiring: the remaining forms of input declaration - a ~pattern input (every task named a, any group) and an
+#      optional input (InputTaskParameter with a default) that some configurations provide and others do not
+family(
+    'wiring',
+    tasks=[
+        _t('a', [P('x')]),
+        _t('g:a', [P('y', default=0)]),
+        _t('b', [], [('a', 'class')], ['a']),
+        _t('pat', [], [('~(.*:)?a', 'name')], [], registry_pulls=['a', 'g:a']),
+        _t('opt', [], [('b', 'param', {'default': None, 'by_class': False})], [], opt_pulls=['b']),
+    ],
+    rcs={
+        'w1': dict(build='nested-files', mounts=[dict(ns=None, values={'x': 1}, tasks=['a', 'g:a', 'pat', 'opt'])]),
+        'w2': dict(build='nested-files', mounts=[dict(ns=None, values={'x': 1}, tasks=['a', 'b', 'opt'])]),
+        'w3': dict(build='nested-files', mounts=[dict(ns=None, values={'x': 1, 'y': 2}, tasks=['a', 'g:a', 'b', 'pat', 'opt'])]),
+    },
+    lists=[['w1'], ['w2'], ['w3'], ['w1', 'w2'], ['w1', 'w3'], ['w2', 'w3']],
+)
+
+
 # --------------------------------------------------------------------------- expected resolution (P-level)
 def task_by_slug(fam):
     return {t['slug']: t for t in fam['tasks']}
@@ -210,10 +231,21 @@ def resolution(fam, rcname):
         for t in fam['tasks']:
             if 'tasks' in mount and t['slug'] not in mount['tasks']:
                 continue
-            deps = [pre + resolve_slug(fam, i['ref']) for i in t['inputs']]
+            here = [u['slug'] for u in fam['tasks'] if 'tasks' not in mount or u['slug'] in mount['tasks']]
+            deps = []
+            for i in t['inputs']:
+                if i['ref'].startswith('~'):      # ~(.*:)?NAME : every task of this mount named NAME, in any group
+                    nm = i['ref'].rsplit('?', 1)[-1]
+                    deps += [pre + u for u in here if _short(u) == nm]
+                elif 'default' in i and '::' not in i['ref'] and resolve_slug(fam, i['ref']) not in here:
+                    continue                      # an optional input this configuration does not provide
+                else:
+                    deps.append(pre + resolve_slug(fam, i['ref']))
             pulls = [pre + resolve_slug(fam, r) for r in list(t['pulls']) + list(t.get('registry_pulls', []))]
+            opt = [r for r in t.get('opt_pulls', []) if resolve_slug(fam, r) in here]
+            pulls += [pre + resolve_slug(fam, r) for r in opt]
             nodes[pre + t['slug']] = dict(slug=t['slug'], pval=persisted(t, mount['values']), deps=deps, pulls=pulls,
-                                          values=mount['values'], ns=mount['ns'],
+                                          values=mount['values'], ns=mount['ns'], opt=opt,
                                           cfgname=mount.get('cfg') or config_name(rcname, rc, mi))
     return nodes
 
@@ -238,7 +270,7 @@ def ref_tree(fam, res, node):
     """The value the node's run must produce (the provenance tree over the inputs it reads)."""
     n = res[node]
     t = task_by_slug(fam)[n['slug']]
-    names = list(t['pulls']) + list(t.get('registry_pulls', []))
+    names = list(t['pulls']) + list(t.get('registry_pulls', [])) + list(n.get('opt', []))
     return {'t': n['slug'], 'p': {k: json.loads(v) for k, v in n['pval']},
             'i': {a: ref_tree(fam, res, d) for a, d in zip(names, n['pulls'])}}
 
@@ -323,8 +355,11 @@ def module_for(fam):
     if fam['name'] not in _modules:
         specs = [json.loads(json.dumps(t)) for t in fam['tasks']]
         by = {t['slug']: t for t in specs}
+        shorts = [_short(t['slug']) for t in specs]
         for t in specs:
-            names = list(t['pulls']) + list(t.get('registry_pulls', []))
+            if shorts.count(_short(t['slug'])) > 1 and 'cls_name' not in t:   # a and g:a: two classes, two class names
+                t['cls_name'] = ''.join(w.capitalize() for w in t['slug'].replace(':', '_').split('_')) + 'Task'
+            names = list(t['pulls']) + list(t.get('registry_pulls', [])) + list(t.get('opt_pulls', []))
             t['input_kinds'] = {a: by[resolve_slug(fam, a).split('::')[-1]]['kind'] for a in names}
         _modules[fam['name']] = gen.make_module(specs, fam['module'])
     return _modules[fam['name']]
